@@ -66,6 +66,32 @@ def advance_before_read(ctx, db):
                 bad = ('no go-and-read path', [])
             ctx.ob(rid, f, f['key'], bad is None, '%s: position advanced on every go-and-read path' % name.split('::')[-1] + ('' if not bad else ' -- ' + bad[0]), desc=bad[0] if bad else None,
                    trace=fmt_trace(bad[1]) if bad and bad[1] else None)
+    # every advance moves forward: the new position is provably greater than the old one (++, += c, or max(old + c, ...) with c >= 1)
+    for f, trs in traces_of(db, 'cocls::publisher::queue::advance_lk', depth=0, per_instance=False):
+        bad = None; nw = 0
+        for tr in trs:
+            if not live(tr):
+                continue
+            for i, it in enumerate(tr):
+                if it.k == 'write' and field_of(it) == REGPOS:
+                    nw += 1
+                    op_ = it.get('op') or '='
+                    fwd = op_ == '++' or (op_ == '+=' and (it.get('const') or 0) >= 1)
+                    if op_ == '=':
+                        rhs = it.get('rhs') or ''
+                        cands = [rhs]
+                        mx = next((c for c in reversed(tr[:i]) if c.k == 'call' and norm(c.get('callee') or '') == 'std::max'), None)
+                        if 'std::max' in rhs and mx is not None:
+                            cands = [a.get('path') or '' for a in mx.get('args', [])]
+                        for c_ in cands:
+                            l_ = _lin(c_, {})
+                            if l_ is not None and l_.get('REG') == 1 and l_.get('', 0) >= 1 and set(l_) <= {'REG', ''}:
+                                fwd = True
+                    if not fwd:
+                        bad = bad or ('the position is set to %s, which is not provably ahead of the old position: a skipping subscriber can stand still or move backwards (it never steps onto end-of-stream after close)' % (it.get('rhs') or op_), tr)
+        if nw == 0:
+            raise Broken('advance_lk never writes the position: anchor changed')
+        ctx.ob(rid, f, f['key'], bad is None, 'every advance moves the position strictly forward', desc='advance_lk sets a position that is not provably ahead of the old one', trace=fmt_trace(bad[1]) if bad else None)
     # advance_lk "not ready" must not change the position
     for f, trs in traces_of(db, 'cocls::publisher::queue::advance_lk', depth=0, per_instance=False):
         bad = None
@@ -183,6 +209,8 @@ def close_wakes_all(ctx, db):
                 n += 1
                 if len(w) != 1 or w[0].get('const') != 1 or len(p) != 1:
                     bad = bad or ('close does not set the flag and wake the subscribers exactly once', tr)
+                elif tr.index(w[0]) > tr.index(p[0]):
+                    bad = bad or ('the closed flag is set after the wake-up pass: push_lk releases the lock while it resumes, a subscriber that comes to wait in that window still sees "open", parks and is never woken', tr)
         if n == 0 and not bad:
             bad = ('close never closes', [])
         ctx.ob(rid, f, f['key'], bad is None, 'close: flag + push_lk once' + ('' if not bad else ' -- ' + bad[0]), desc=bad[0] if bad else None)
